@@ -102,8 +102,7 @@ Inductive aval :=
 | VQ (q : Q)
 | VGlue (g : gluev)
 | VList (l : list aval)
-| VDict (l : list (aval * aval))
-| VOpaque.                                (* str() of an object that is not a string: '<plasTeX.TeXFragment object at 0x...>' *)
+| VDict (l : list (aval * aval)).
 
 Inductive ares := AOk (v : aval) (s : list tok) (lvl : Z) | ACrash (k : Z) (lvl : Z) | AUnmod.
 
@@ -126,10 +125,37 @@ Definition code_of (t : tok) : Z := match t with Ch _ c => c | _ => 0 end.
 Definition normalize (l : list tok) : aval :=
   if forallb is_plain l then VStr (strip (map code_of l)) else VToks l.
 
-(* castString: type(self.normalize(tokens)) with type = str; when normalize hands back a fragment or an element the result
-   is Python's default repr of that object *)
-Definition cast_str (l : list tok) : aval :=
-  match normalize l with VStr s => VStr s | _ => VOpaque end.
+(* castString: value = normalize(tokens); when normalize hands back a fragment or an element (a brace group or a macro in the
+   argument) the value is its `.source`: the characters, `{` children `}` for a group, \name followed by one blank for a command
+   without arguments (Macro.source).  Not stripped.  Registers (their names are not in the Model) and unbalanced braces (a group
+   that was never closed still prints a closing brace) give no value here: outcome Unmod. *)
+Definition source_tok (t : tok) : option (list Z) :=
+  match t with
+  | Ch _ c => Some [c]
+  | Cs (KInert n) _ => Some (92 :: n ++ [32])
+  | Cs (KGrp _ c) _ => Some [c]
+  | _ => None
+  end.
+
+Fixpoint source_of (l : list tok) : option (list Z) :=
+  match l with
+  | [] => Some []
+  | t :: r => match source_tok t, source_of r with Some a, Some b => Some (a ++ b) | _, _ => None end
+  end.
+
+Fixpoint braces_balanced (n : nat) (l : list tok) : bool :=
+  match l with
+  | [] => match n with O => true | S _ => false end
+  | t :: r => if cat_of t =? 1 then braces_balanced (S n) r
+              else if cat_of t =? 2 then match n with O => false | S m => braces_balanced m r end
+              else braces_balanced n r
+  end.
+
+Definition cast_str (l : list tok) : option aval :=
+  match normalize l with
+  | VStr s => Some (VStr s)
+  | _ => if braces_balanced O l then match source_of l with Some s => Some (VStr s) | None => None end else None
+  end.
 
 (* readInternalType: push \relax and the tokens, run the reader, then drop everything up to and including \relax *)
 Definition kw_relax : list Z := [114; 101; 108; 97; 120].
@@ -231,7 +257,7 @@ Fixpoint split_items (delim : Z) (s : list tok) (level : nat) (cur : list tok) :
 Definition cast_item (lvl : Z) (sub : option (list Z)) (l : list tok) : option aval :=
   match classify sub with
   | TyNone | TyNox | TyUnknown => Some (normalize l)
-  | TyStr => Some (cast_str l)
+  | TyStr => cast_str l
   | TyNumberC =>
       match internal (read_integer true) VInt l [] lvl with AOk v _ _ => Some v | _ => None end
   | TyFloatC =>
@@ -324,7 +350,7 @@ Definition cast (a : arg) (l : list tok) (s : list tok) (lvl : Z) : ares :=
   if existsb unmodelled_char l then AUnmod else
   match classify (a_type a) with
   | TyNone | TyNox | TyUnknown => AOk (VToks l) s lvl
-  | TyStr => AOk (cast_str l) s lvl
+  | TyStr => match cast_str l with Some v => AOk v s lvl | None => AUnmod end
   | TyCs => match filter (fun t => cat_of t =? 0) l with
             | t :: _ => AOk (VTok t) s lvl
             | [] => ACrash crash_index lvl
@@ -607,7 +633,6 @@ Fixpoint out_aval (v : aval) : val :=
   | VGlue g => VL [VI 7; out_glue g]
   | VList l => VL [VI 8; VL (map out_aval l)]
   | VDict d => VL [VI 9; VL (map (fun kv => VL [out_aval (fst kv); out_aval (snd kv)]) d)]
-  | VOpaque => VL [VI 10]
   end.
 
 Definition v_unmod : val := VL [VI (-4)].
